@@ -13,8 +13,15 @@
    itself and mergeAll copies ITS entries, so a merge key of the target is copied as an ordinary entry.
    An anchor is "open" while the content of its node is being processed; an alias to an open anchor (a node
    that contains itself) is an error (fix 46c2be4).
-   Domain: anchors are not redefined inside merge values; a merge never names an open anchor; the merge key
-   is the plain key "<<" (which the decoder tags !!merge). *)
+   Domain: [flat_merges] — no mapping that can be the source of a merge has a merge key itself; a merge never
+   names an open anchor; the merge key is the plain key "<<" (which the decoder tags !!merge).
+   Outside [flat_merges] the Go result depends on the HISTORY of the pointed-to nodes: an alias in value
+   position processes its target in place, so a later `<<: *n` copies the processed node (no "<<" left) where
+   without that alias it copies the raw one; a left-over "<<" entry (it keeps its !!merge tag) is merged when
+   the node is visited again; an inline merge value with a merge key of its own is expanded differently when
+   it is a merge source and when it is copied as an entry.  The model follows the raw-view reading only: it is
+   exact for the witnesses of the findings (fixed documents of the correspondence, [chained_merge]) and on
+   [flat_merges]; generated documents outside are not compared (design.d/C13.md). *)
 From KV Require Export Yaml.Node.
 
 Inductive anode : Type :=
